@@ -512,7 +512,7 @@ package participle
 //@ func UseLookahead$1 [C13 C01]
 //@   requires p != nil
 //@   modifies p.useLookahead
-//@   ensures result0 == nil && p.useLookahead == n
+//@   ensures result0 == nil && p.useLookahead == old(n)
 
 //@ func Lexer$1 [C15]
 //@   requires p != nil
